@@ -6,11 +6,15 @@
 package simnet
 
 import (
+	"context"
+	"crypto/tls"
 	"errors"
 	"fmt"
+	"log"
 	"net"
 	"net/http"
 	"sync"
+	"time"
 
 	simrt "verif/sim/rt"
 )
@@ -19,6 +23,7 @@ var (
 	mu       sync.Mutex
 	nextPort = 40000
 	handlers = map[string]http.Handler{}
+	servers  = map[string]*Server{}
 	// Listens counts Listen calls (fail-closed seam counter).
 	Listens int64
 )
@@ -28,6 +33,7 @@ func Reset() {
 	mu.Lock()
 	nextPort = 40000
 	handlers = map[string]http.Handler{}
+	servers = map[string]*Server{}
 	mu.Unlock()
 }
 
@@ -58,19 +64,53 @@ func Listen(network, address string) (net.Listener, error) {
 	return &listener{a: addr(fmt.Sprintf("127.0.0.1:%d", nextPort)), closed: make(chan struct{})}, nil
 }
 
-// Server mirrors the fields of http.Server that the code under test sets.
+// Server mirrors the exported fields of http.Server, so that any configuration
+// the code under test writes compiles; the timeouts are honoured by the
+// harness-side client (see Timeouts).
 type Server struct {
-	Addr    string
-	Handler http.Handler
-	closed  bool
-	addr    string
+	Addr                         string
+	Handler                      http.Handler
+	DisableGeneralOptionsHandler bool
+	TLSConfig                    *tls.Config
+	ReadTimeout                  time.Duration
+	ReadHeaderTimeout            time.Duration
+	WriteTimeout                 time.Duration
+	IdleTimeout                  time.Duration
+	MaxHeaderBytes               int
+	TLSNextProto                 map[string]func(*http.Server, *tls.Conn, http.Handler)
+	ConnState                    func(net.Conn, http.ConnState)
+	ErrorLog                     *log.Logger
+	BaseContext                  func(net.Listener) context.Context
+	ConnContext                  func(ctx context.Context, c net.Conn) context.Context
+	HTTP2                        *http.HTTP2Config
+	Protocols                    *http.Protocols
+	closed                       bool
+	addr                         string
 }
+
+// Timeouts reports the limits a client of this server is subject to, with
+// net/http's meaning: header is the time allowed for the request headers to
+// arrive (ReadHeaderTimeout, else ReadTimeout), write the time from the end of
+// the request headers to the last byte of the response (WriteTimeout); zero
+// means unlimited.
+func (s *Server) Timeouts() (header, write time.Duration) {
+	header = s.ReadHeaderTimeout
+	if header == 0 {
+		header = s.ReadTimeout
+	}
+	return header, s.WriteTimeout
+}
+
+func (s *Server) Shutdown(ctx context.Context) error { return s.Close() }
+func (s *Server) RegisterOnShutdown(f func())        {}
+func (s *Server) SetKeepAlivesEnabled(v bool)        {}
 
 // Serve registers the handler and parks the calling task until Close.
 func (s *Server) Serve(l net.Listener) error {
 	mu.Lock()
 	s.addr = l.Addr().String()
 	handlers[s.addr] = s.Handler
+	servers[s.addr] = s
 	mu.Unlock()
 	if _, t := simrt.Current(); t != nil {
 		simrt.Block("http.Serve", func() bool { return s.closed })
@@ -84,8 +124,16 @@ func (s *Server) Close() error {
 	mu.Lock()
 	s.closed = true
 	delete(handlers, s.addr)
+	delete(servers, s.addr)
 	mu.Unlock()
 	return nil
+}
+
+// LookupServer returns the server registered for host:port, or nil.
+func LookupServer(hostport string) *Server {
+	mu.Lock()
+	defer mu.Unlock()
+	return servers[hostport]
 }
 
 // Lookup returns the handler serving the host:port, or nil.
